@@ -29,7 +29,7 @@ ASSUMPTIONS = [
     "reported under that finding",
     "Move.start is informational and ignored",
 ]
-TOLERANCES = {"point": "1e-9 * S"}
+TOLERANCES = {"point": "1e-9 * S", "arc point": "(1e-9 + 1e-15 * ratio^2) * S + max(4, ratio) * closure_gap(arc)"}
 MANDATORY_LABELS = {"quick": ["op:rev", "op:revsub", "op:mul", "shape:closed-nonzero", "shape:closed-zero", "shape:open", "shape:multi", "shape:repeated-segment", "history:double-reverse"]}
 MANDATORY_LABELS["thorough"] = MANDATORY_LABELS["quick"]
 
@@ -204,8 +204,9 @@ def compare(o, path, subs, S, where):
         if k == "A" and abs(seg.sweep) > 1e-12:
             r = c02.arc_ratio(seg)
             # an arc whose radii had to be scaled up misses its own end points by the square root of rounding noise
-            # (see C05); reversing it re-anchors the parameter at the other end, so allow that closure gap
-            stol = (1e-9 + 1e-15 * r * r) * max(S, seg.rx, seg.ry) + 4.0 * c08.closure_gap(seg)
+            # (see C05); reversing it re-anchors the parameter at the other end: the start angle is then taken from the
+            # other off-ellipse end point, an error of gap / (smaller radius) in the parameter, i.e. gap * ratio in space
+            stol = (1e-9 + 1e-15 * r * r) * max(S, seg.rx, seg.ry) + max(4.0, r) * c08.closure_gap(seg)
         for t in TS:
             p = lib.xy(seg.point(t))
             w = m.f(t)
